@@ -10,7 +10,8 @@
    alphabet and compares with MachineFile!Eval).
 3. (B) seeded random larger file lists (more files / sections / keys, longer expressions, odd spacing, comments,
    unusual characters, @DIRNAME@ / @GLOBAL_SOURCE_ROOT@, every documented failure) judged by the same trace spec.
-4. (C) a sample of real ``meson setup --native-file a.ini --native-file b.ini [--cross-file ..]`` runs of a probe
+4. (D) the documentation's own examples (Machine-files.md, Cross-compilation.md, release notes), verbatim.
+5. (C) a sample of real ``meson setup --native-file a.ini --native-file b.ini [--cross-file ..]`` runs of a probe
    project that prints meson.get_external_property(), get_option(), find_program().full_path() and host_machine.*;
    judged by TraceMachineFile!JudgeCli (wiring from the parser to the interpreter).
 """
@@ -28,6 +29,7 @@ from concurrent.futures import ProcessPoolExecutor, ThreadPoolExecutor
 from pathlib import Path
 
 from . import common
+from . import machinefile_docs as D
 from . import machinefile_gen as G
 from .common import Check, MachineryError, SPECS, run_tlc, scratch
 
@@ -117,6 +119,23 @@ def _worker_b(args: T.Tuple[int, int, int]) -> T.List[T.Dict[str, T.Any]]:
                 ob = run_parser(texts2, wd, same_dir)
                 ob.update({'id': f'B:{j}s', 'm': 'B', 'files': files2, 'text': texts2})
                 out.append(ob)
+    return out
+
+
+def run_docs() -> T.List[T.Dict[str, T.Any]]:
+    """(D) the documentation's own examples, verbatim, through the real parser."""
+    common.use_repo_meson()
+    out = []
+    for dc in D.DOC_CASES:
+        doc = (common.REPO / 'docs' / 'markdown' / dc['doc']).read_text(encoding='utf-8')
+        miss = D.missing_lines(dc, doc)
+        if miss:
+            raise MachineryError(f"example {dc['name']} is no longer in docs/markdown/{dc['doc']}: {miss[:3]}")
+        texts = [t.replace('  # probe', '') for t in dc['texts']]
+        with scratch('x01d-') as wd:
+            ob = run_parser(texts, wd)
+        ob.update({'id': 'D:' + dc['name'], 'm': 'B', 'files': dc['files'], 'text': texts})
+        out.append(ob)
     return out
 
 
@@ -431,6 +450,8 @@ def signature(c: T.Dict[str, T.Any], v: T.Dict[str, T.Any]) -> str:
     if clause.startswith('Crash') or clause == 'CliCrash':
         # one defect = one crash site, whatever input reaches it
         return f"{clause}:{c.get('x')}@{c.get('site')}"
+    if c['id'].startswith('D:'):
+        return f"{clause}@doc:{c['id'][2:]}:{v.get('sec')}/{v.get('key')}"
     if c['m'] == 'A':
         return f"{clause}@L{c['level']}:{','.join(map(str, c['code']))}:{v.get('sec')}/{v.get('key')}"
     text = c.get('text')
@@ -504,18 +525,24 @@ def main(chk: Check) -> None:
             alphabet, codes = model_run(chk, level, mf, ms, me)
             chk.extra.setdefault('models', []).append({'level': level, 'max_files': mf, 'max_secs': ms, 'max_entries': me,
                                                        'forms': len(alphabet['forms']), 'file_lists': len(codes)})
-            step = max(1, min(4000, len(codes) // (common.NCPU * 2) + 1))
-            jobs = [(level, alphabet, codes[lo:lo + step], chk.seed, lo) for lo in range(0, len(codes), step)]
-            cases: T.List[T.Dict[str, T.Any]] = []
-            for part in ex.map(_worker_a, jobs):
-                cases.extend(part)
-            _account(chk, cases)
-            judge(chk, cases, f'A-L{level}')
+            # in slices, so that a large model never sits in memory as a whole
+            for sl, base in enumerate(range(0, len(codes), 80000)):
+                chunk = codes[base:base + 80000]
+                step = max(1, min(4000, len(chunk) // (common.NCPU * 2) + 1))
+                jobs = [(level, alphabet, chunk[lo:lo + step], chk.seed, base + lo) for lo in range(0, len(chunk), step)]
+                cases: T.List[T.Dict[str, T.Any]] = []
+                for part in ex.map(_worker_a, jobs):
+                    cases.extend(part)
+                _account(chk, cases)
+                judge(chk, cases, f'A-L{level}.{sl}')
         cases = []
         for f in b_futs:
             cases.extend(f.result())
         _account(chk, cases)
         judge(chk, cases, 'B', batch=4000)
+        cases = run_docs()
+        _account(chk, cases)
+        judge(chk, cases, 'D')
         cases = [f.result() for f in cli_futs]
         _account(chk, cases)
         judge(chk, cases, 'C')
